@@ -369,6 +369,28 @@ func MqttStacks() []string {
 	return out
 }
 
+// Starved measures for the given window whether this process gets processor
+// time: a goroutine that sleeps 1 ms at a time must get through at least a
+// quarter of its rounds. Timeouts that expire on a starved machine say nothing.
+func Starved(window time.Duration) bool {
+	var ticks atomic.Int64
+	stop := make(chan struct{})
+	go func() {
+		for {
+			select {
+			case <-stop:
+				return
+			default:
+			}
+			time.Sleep(time.Millisecond)
+			ticks.Add(1)
+		}
+	}()
+	time.Sleep(window)
+	close(stop)
+	return ticks.Load() < int64(window/(4*time.Millisecond))
+}
+
 // Diagnose decides between wedged and slow after an expected condition failed
 // to arrive: it compares the library goroutine stacks and the event counter
 // across a window. Wedged means nothing can change any more.
